@@ -1943,7 +1943,12 @@ func (sgi *ShardGroupInfo) unmarshal(pb *internal.ShardGroupInfo) {
 	sgi.DeletedAt = UnmarshalTime(pb.GetDeletedAt())
 
 	if pb != nil && pb.TruncatedAt != nil {
-		sgi.TruncatedAt = UnmarshalTime(pb.GetTruncatedAt())
+		// A present field means "truncated", also when the instant is the Unix epoch itself.
+		if i := pb.GetTruncatedAt(); i == 0 {
+			sgi.TruncatedAt = time.Unix(0, 0).UTC()
+		} else {
+			sgi.TruncatedAt = UnmarshalTime(i)
+		}
 	}
 
 	if len(pb.GetShards()) > 0 {
